@@ -93,12 +93,19 @@ def check_case(facts, chk, pid='C04'):
         sink_b_clean = _has_san(rbe)
         return dict(store=st.span, store_expr=show(se), store_clean=store_clean or wholesale, passes_seq=passes_seq, copies=copies,
                     sink_a_clean=sink_a_clean, sink_b_clean=sink_b_clean, reads_seq=reads_seq, ref_base=show(rbe))
-    r = chk.guard(pid + '.case', pid + '.case:RefSka::new->seq', go)
+    # soft: the observable clause (a lower-case reference gives an upper-case alignment / no spurious VCF records) is decided by the
+    # end-to-end rules on references with lower-case stretches; this provenance rule adds "for every reference" when it recognises the code
+    twin = {'C04': ['C04.e2e:map'], 'C05': ['C05.e2e:vcf']}.get(pid, [])
+
+    def go_checked():
+        r = go()
+        if len(r['copies']) < 2:
+            raise AnchorLost('%d reference copy sites found in AlnWriter (2 on the pinned tree)' % len(r['copies']))
+        if not r['passes_seq'] or not r['reads_seq']:
+            raise AnchorLost('AlnWriter::new no longer receives self.seq / write_vcf no longer reads self.seq')
+        return r
+    r = chk.guard_soft(pid + '.case', pid + '.case:RefSka::new->seq', go_checked, twins=twin)
     if r is None:
-        return
-    chk.floor(pid + '.case', 'reference copy sites in AlnWriter', len(r['copies']), 2)
-    if not r['passes_seq'] or not r['reads_seq']:
-        chk.anchor_lost(pid + '.case', pid + '.case:flow', 'AlnWriter::new no longer receives self.seq / write_vcf no longer reads self.seq')
         return
     ok = r['store_clean'] or (r['sink_a_clean'] and r['sink_b_clean'])
     if ok:
@@ -825,6 +832,9 @@ def check_pseudoalignment(facts, chk, rule, tier):
 
 
 def run(facts, chk, tier, only=None):
+    from . import cli_e2e
+    # the subcommand through ska::main() itself (argument parser replaced by a constructed Args value): hand-over of CLI values, width dispatch
+    chk.guard('C04.cli', 'C04.cli:run0', lambda: cli_e2e.check_map(facts, chk, 'C04.cli', tier, 'Aln'))
     chk.guard('C04.writer', 'C04.writer:run', lambda: check_writer(facts, chk, tier))
     chk.guard('C04.map', 'C04.map:run', lambda: check_pseudoalignment(facts, chk, 'C04.map', tier))
     chk.guard('C04.map', 'C04.map:run2', lambda: check_map(facts, chk, 'C04.map', tier))
